@@ -400,6 +400,14 @@ func (c08) Run(t *testing.T, sc *Scenario) *Outcome {
 	var memExec *ExecResult
 	var dump []byte
 	if mem.Err == nil {
+		if sc.Idx%3 == 0 {
+			// the Prog is kept while another source with other line offsets is parsed and run
+			other := append([]byte("# another\n\n\nvar zz9 = 1\n"), sc.Src...)
+			if om := ParseMem(other, "other.bcl", 0); om.Panic == "" && om.Err == nil {
+				Exec(om.Prog, om.OutBuf, om.LogBuf, 0)
+			}
+			o.probe("other_parse_before_execute", 1)
+		}
 		memExec = Exec(mem.Prog, mem.OutBuf, mem.LogBuf, 0)
 		if memExec.Panic != "" {
 			o.Skipped = true
